@@ -260,6 +260,12 @@ def chk (pred : String) (m : List (String × String)) : Option Bool :=
   | "wf" => do
     let p ← parseProphecy (← get m "p")
     pure (Spec.C05.prophecyWF p)
+  | "accept" => do
+    let vals ← parseVals (← get m "vals")
+    let wl ← parseNatList (← get m "wl") ","
+    pure (Spec.C05.acceptedClaimantOK vals wl (← parseAcct (← get m "v")))
+  | "wlview" => do
+    pure (Spec.C05.viewIsStore (← parseNatList (← get m "view") ",") (← parseNatList (← get m "stored") ","))
   | "thr" => do
     let vals ← parseVals (← get m "vals")
     let wl ← parseNatList (← get m "wl") ","
@@ -331,6 +337,14 @@ def chk (pred : String) (m : List (String × String)) : Option Bool :=
     pure (Spec.C07.supplyOK g c l b (supView sup) ((sup.map (·.1) ++ (g ++ c ++ l ++ b).map (·.1)).eraseDups))
   | _ => none
 
+/-- split a token list at the separator token "|" -/
+def splitToks : List String → List (List String)
+  | [] => [[]]
+  | t :: ts =>
+    match splitToks ts with
+    | [] => [[t]]
+    | seg :: segs => if t == "|" then [] :: seg :: segs else (t :: seg) :: segs
+
 /-! ### one line -/
 
 def step (st : DState) (toks : List String) : DState × String :=
@@ -364,6 +378,16 @@ def step (st : DState) (toks : List String) : DState × String :=
       let st' := (msgDenoms msg).foldl addDenom { st with s := s' }
       (st', showOut out)
     | none => (st, "bad-op")
+  | "txm" :: rest =>
+    -- several messages in one transaction: segments separated by the token "|"
+    let segs := (splitToks rest).filter (fun l => !l.isEmpty)
+    match segs.mapM (fun seg => match seg with | kind :: t => parseMsg kind t | [] => none) with
+    | some msgs =>
+      let (s', outs) := deliverTx drvOrd st.vals st.s msgs
+      let st' := (msgs.flatMap msgDenoms).foldl addDenom { st with s := s' }
+      (st', ";".intercalate (outs.map showOut))
+    | none => (st, "bad-op")
+  | ["blk"] => (st, "ok")
   | ["obs"] => (st, dump st)
   | "chk" :: pred :: rest =>
     match chk pred (kvs rest) with
